@@ -87,8 +87,18 @@ theorem goodEnd_after_frames (l : Lim) (hl : l.OK) (bs : List Bytes) (h : ∀ b 
 example : Lim.gen.ldMin ≤ ((Rec.exp [0x6b] 5000).body ++ le32 0).length ∧ ((Rec.exp [0x6b] 5000).body ++ le32 0).length ≤ Lim.gen.ldMax := by
   decide
 
-/-- **snapshot round trip.** What `compactLocked` writes, `load` reads back (version 2, any number of entries up to the
-sanity bound of `load`). -/
+/-- **Gen obligation (snapshot entry count, repair FC11d).** `load` bounds the entry count by what the rest of the snapshot file can
+hold (`count > remaining / kMinSnapshotEntryBytes` is refused) instead of by a constant, the divisor is positive and not larger than
+the smallest entry of either snapshot version (4 + 1 + 4), the count field is 32 bits wide, and `compactLocked` refuses to write a
+snapshot whose count would not fit the field.  So the only bound left in `D1_snapshot` / `StepOK` is the width of the field. -/
+theorem gen_snapcount_ok :
+    Gen.Kv.snapCountBoundFromFileSize = true ∧ Gen.Kv.compactRefusesCountOverflow = true ∧
+    Gen.Kv.snapCountFieldMax = 2 ^ 32 - 1 ∧ 1 ≤ Gen.Kv.snapMinEntryBytes ∧ Gen.Kv.snapMinEntryBytes ≤ 4 + 1 + 4 := by
+  decide
+
+/-- **snapshot round trip.** What `compactLocked` writes, `load` reads back: version 2, ANY number of entries the 32-bit count
+field can express (`l.snapCountMax = 2^32 − 1` for the generated limits; `compactLocked` refuses more) — `load`'s plausibility
+check `count ≤ remaining bytes / kMinSnapshotEntryBytes` never refuses a snapshot this code wrote (`snapEntries_length`). -/
 theorem D1_snapshot (l : Lim) (hl : l.OK) (ents : List (Key × Val × Option Int)) (h : ∀ x ∈ ents, EntWF l x)
     (hc : ents.length ≤ l.snapCountMax) : loadSnap l (encodeSnap l ents) = .ok (snapState ents) :=
   loadSnap_ok l hl ents h hc
